@@ -107,6 +107,32 @@ func TestC11TwoParty(t *testing.T) {
 				c.Count("revalidation_resumes", 1)
 				continue
 			}
+			if completedAt < 0 && r.Intn(6) == 0 {
+				// voucher traffic is not a pause or resume action: whatever pause bit the messages carry,
+				// neither side's view of who is paused may move
+				tv := gen.Voucher(r, "VT1")
+				what := "responder sends voucher result"
+				var err error
+				if r.Intn(2) == 0 {
+					err = B.m.SendVoucherResult(bg, chid, tv)
+				} else {
+					what = "initiator sends voucher"
+					err = A.m.SendVoucher(bg, chid, tv)
+				}
+				settle()
+				trace = append(trace, what)
+				if err != nil {
+					c.Note("%s: %v", what, err)
+				}
+				for _, side := range []*mgrFix{A, B} {
+					if v := side.view(chid); v != nil && (v.InitiatorPaused != ip || v.ResponderPaused != rp) {
+						sname := map[bool]string{true: "initiator", false: "responder"}[side == A]
+						c.Violation("C11", "flags-diverge "+sname+" after voucher traffic", "%s view (ip=%v rp=%v), reference (ip=%v rp=%v) after %v", sname, v.InitiatorPaused, v.ResponderPaused, ip, rp, trace)
+					}
+				}
+				c.Count("voucher_traffic_between_pauses", 1)
+				continue
+			}
 			who := A
 			name := []string{"init-pause", "init-resume", "resp-pause", "resp-resume"}[act]
 			if act >= 2 {
